@@ -10,6 +10,8 @@ def build(R):
     records.install(R)
     outgoing_model.install_shapes(R)
     outgoing_model.install_primitives(R)
+    outgoing_model.install_uninterpreted_strings(R)
+    outgoing_model.install_writers(R)
 
 
 def configure(ctx, R):
